@@ -354,6 +354,8 @@ where
     /// use [`LoRa::prepare_for_rx`].
     pub async fn rx_switch_channel(&mut self, frequency_in_hz: u32) -> Result<(), RadioError> {
         if let RadioMode::Receive(listen_mode) = self.radio_mode {
+            // in RX duty cycle the chip may be in the sleep phase of the cycle
+            self.radio_kind.ensure_ready(self.radio_mode).await?;
             self.radio_kind.set_standby().await?;
             self.radio_kind.set_channel(frequency_in_hz).await?;
             self.radio_kind.do_rx(listen_mode).await
@@ -366,11 +368,7 @@ where
     /// Call [`LoRa::complete_rx`] to wait and handle result.
     pub async fn start_rx(&mut self) -> Result<(), RadioError> {
         if let RadioMode::Receive(listen_mode) = self.radio_mode {
-            // a flag latched by an earlier, abandoned operation must not read as this one's result
-            let started = match self.radio_kind.clear_irq_status().await {
-                Ok(()) => self.radio_kind.do_rx(listen_mode).await,
-                Err(err) => Err(err),
-            };
+            let started = self.start_rx_inner(listen_mode).await;
             match started {
                 Ok(()) => Ok(()),
                 Err(err) => self.fail_to_standby(err).await,
@@ -378,6 +376,14 @@ where
         } else {
             Err(RadioError::InvalidRadioMode)
         }
+    }
+
+    async fn start_rx_inner(&mut self, listen_mode: RxMode) -> Result<(), RadioError> {
+        // a restart from RX duty cycle may find the chip in the sleep phase of the cycle
+        self.radio_kind.ensure_ready(self.radio_mode).await?;
+        // a flag latched by an earlier, abandoned operation must not read as this one's result
+        self.radio_kind.clear_irq_status().await?;
+        self.radio_kind.do_rx(listen_mode).await
     }
 
     /// Wait for a previously started receive to complete
